@@ -165,14 +165,34 @@ fn path_case(ctx: &mut Ctx, rng: &mut Rng, i: u64, only_empty: bool) {
         OsString::from(&path_text)
     };
     std::env::set_var("PATH", &path_os);
-    let m = run::monitored(|| Popen::create(&argv, config));
+    // the ways to say the same launch: the config as built, a copy of it, the Exec builder, a copy of the builder
+    let route = match rng.below(8) { 0 | 1 => "config-copy", 2 if !use_executable => "exec-builder", 3 if !use_executable => "exec-builder-copy", _ => "config" };
+    ctx.count(&format!("route.{}", route), 1);
+    let m = run::monitored(|| match route {
+        "config" => Popen::create(&argv, config),
+        "config-copy" => {
+            let copy = config.try_clone().expect("try_clone");
+            drop(config);
+            Popen::create(&argv, copy)
+        }
+        _ => {
+            let mut e = subprocess::Exec::cmd(&argv[0]).args(&argv[1..]).cwd(&cwd);
+            if use_env {
+                e = e.env_clear().env("PATH", &decoy_dir);
+            }
+            if route == "exec-builder-copy" {
+                e = e.clone();
+            }
+            e.popen()
+        }
+    });
     match old {
         Some(p) => std::env::set_var("PATH", p),
         None => std::env::remove_var("PATH"),
     }
     let evs = m.events();
     let attempts: Vec<(i32, i64)> = evs.iter().filter(|e| e.child != 0 && (e.kind == k::EXECVE || e.kind == k::EXECV)).map(|e| (e.err, e.a[0])).collect();
-    let shape = format!("{}{}", if only_empty { "only-empty-path" } else { "path" }, if use_executable { "+executable" } else { "" });
+    let shape = format!("{}{}{}", if only_empty { "only-empty-path" } else { "path" }, if use_executable { "+executable" } else { "" }, if route == "config" { "".to_string() } else { format!("/{}", route) });
     let wit = |extra: J| {
         J::obj()
             .set("PATH", J::Str(crate::json::show_bytes(path_text.as_bytes(), 400)))
@@ -264,7 +284,8 @@ fn slash_case(ctx: &mut Ctx, rng: &mut Rng, _i: u64) {
     let config = PopenConfig { executable: if use_executable { Some(OsString::from(&name)) } else { None }, cwd: Some(cwd.clone().into_os_string()), ..Default::default() };
     let old = std::env::var_os("PATH");
     std::env::set_var("PATH", &pathdir);
-    let m = run::monitored(|| Popen::create(&argv, config));
+    let copy = rng.chance(300);
+    let m = run::monitored(|| if copy { Popen::create(&argv, config.try_clone().expect("try_clone")) } else { Popen::create(&argv, config) });
     match old {
         Some(p) => std::env::set_var("PATH", p),
         None => std::env::remove_var("PATH"),
